@@ -5,7 +5,8 @@
 (* The harness runs scanner.Fetcher.Run (mode "fetch") or                  *)
 (* scanner.Scanner.Scan (mode "scan") against a scripted log client under  *)
 (* virtual time and records, under the client's mutex,                     *)
-(*   Reset   a new run and its configuration                               *)
+(*   Reset   a new run and its configuration (mode scan: per entry its     *)
+(*           kind, parse class and the matcher's verdict, the matcher type)*)
 (*   Publish the log grew                                                  *)
 (*   STH     a get-sth call and its answer                                 *)
 (*   Req     a get-entries call [start, end]   (which goroutine: unknown)  *)
@@ -24,7 +25,7 @@
 (* range nobody owes, a remainder that does not continue where the reply   *)
 (* ended, a batch that was not received, a return with work outstanding).  *)
 (***************************************************************************)
-EXTENDS Fetcher, Json, IOUtils
+EXTENDS Fetcher, ScanSelect, Json, IOUtils
 
 Trace == ndJsonDeserialize(IOEnv.TRACE_FILE)
 
@@ -40,7 +41,9 @@ Ev(name) == l <= Len(Trace) /\ Trace[l].ev = name
 E == Trace[l]
 
 CfgOf(e) == [start |-> e.start, end |-> e.end, batch |-> e.batch, nw |-> e.nw, cont |-> e.cont, init |-> e.init]
-ScanOf(e) == [mode |-> e.mode, kind |-> e.kind, sel |-> e.sel]
+ScanOf(e) == [mode |-> e.mode, kind |-> e.kind, class |-> e.class, wants |-> e.wants, mtype |-> e.mtype]
+\* the scan owes entry i a callback (ScanSelect.tla): the matcher wants it and is asked about it
+OwedCallback(i) == Selected(scan.wants[i + 1] = 1, scan.class[i + 1], scan.mtype)
 KindName(x) == IF x = "p" THEN "precert" ELSE "x509"
 
 TraceInit ==
@@ -115,7 +118,7 @@ TraceBatch ==
 \* mode scan, silent: the fetch callback (flatten) takes the batch; its selected entries are now owed a callback
 DeliverScan(w) ==
   /\ scan.mode = "scan" /\ wpc[w] = "got"
-  /\ inflight' = inflight \cup {i \in wrng[w].s..(wrng[w].s + wgot[w] - 1) : scan.sel[i + 1] = 1}
+  /\ inflight' = inflight \cup {i \in wrng[w].s..(wrng[w].s + wgot[w] - 1) : OwedCallback(i)}
   /\ Deliver(w)
   /\ UNCHANGED <<l, checked, scan>>
 
